@@ -14,7 +14,7 @@ LEVEL = 'exploration'
 RULE = ('Hypothesis rule-based state machine. State: a pool of trees (fixed seeds covering every array-elision form, '
         'comments, obfuscatable scopes, plus G1 programs added by a rule, some parsed with comment capture) and a pool '
         'of printer objects (pretty with drawn indent, all 16 minify flag combinations, Unparser(rules=(obfuscate, '
-        'indent)), default Unparser, and Unparsers that share rule objects: one minify / indent / obfuscate rule configuring several of them). Rules: print_full(printer, tree); print_abandon(printer, tree, k) (k fragments, '
+        'indent)), default Unparser, and Unparsers that share rule objects: one minify / indent / obfuscate rule configuring several of them, also under instance-level layout handlers; the model printer of such a configuration is built from private rule objects). Rules: print_full(printer, tree); print_abandon(printer, tree, k) (k fragments, '
         'then the generator is closed or dropped); print_raising(printer) (a tree holding a node kind without '
         'definition); new_printer; new_tree; shortcut(text, kind). Model: the fragment list a *fresh* printer of the '
         'same configuration produced for the tree the first time the pair was seen; every later full print must '
@@ -40,7 +40,7 @@ SEED_SOURCES = [
 ]
 
 CONFIGS = [('pretty', '  '), ('pretty', '\t'), ('pretty', ''), ('default',), ('shared_min',), ('shared_min_indent',),
-           ('shared_indent',), ('shared_indent_obf',)] + \
+           ('shared_indent',), ('shared_indent_obf',), ('shared_min_layout',)] + \
           [('min', o, g, s, d) for o in (False, True) for g in (False, True) for s in (False, True)
            for d in (False, True)] + \
           [('obf_indent', g, s) for g in (False, True) for s in (False, True)]
@@ -49,31 +49,41 @@ CONFIGS = [('pretty', '  '), ('pretty', '\t'), ('pretty', ''), ('default',), ('s
 _SHARED_RULES = {}
 
 
-def shared_rule(name):
-    """rule setup functions are plain callables; one object may configure several Unparsers"""
+def shared_rule(name, fresh=False):
+    """rule setup functions are plain callables; one object may configure several Unparsers.
+    fresh=True builds a private rule object of the same configuration (used for the model, so that the
+    model cannot be contaminated through the shared object)"""
     from calmjs.parse import rules
     from calmjs.parse.lexers.es5 import Lexer
+    make = {
+        'min': lambda: rules.minify(drop_semi=False),
+        'indent': lambda: rules.indent('  '),
+        'obf': lambda: rules.obfuscate(reserved_keywords=Lexer.keywords_dict.keys()),
+    }[name]
+    if fresh:
+        return make()
     if name not in _SHARED_RULES:
-        _SHARED_RULES[name] = {
-            'min': lambda: rules.minify(drop_semi=False),
-            'indent': lambda: rules.indent('  '),
-            'obf': lambda: rules.obfuscate(reserved_keywords=Lexer.keywords_dict.keys()),
-        }[name]()
+        _SHARED_RULES[name] = make()
     return _SHARED_RULES[name]
 
 
-def make_printer(cfg):
+def make_printer(cfg, fresh=False):
     from calmjs.parse.unparsers.es5 import pretty_printer, minify_printer, Unparser
     from calmjs.parse import rules
     from calmjs.parse.lexers.es5 import Lexer
     if cfg[0] == 'shared_min':
-        return Unparser(rules=(shared_rule('min'),))
+        return Unparser(rules=(shared_rule('min', fresh),))
     if cfg[0] == 'shared_min_indent':
-        return Unparser(rules=(shared_rule('min'), shared_rule('indent')))
+        return Unparser(rules=(shared_rule('min', fresh), shared_rule('indent', fresh)))
     if cfg[0] == 'shared_indent':
-        return Unparser(rules=(shared_rule('indent'),))
+        return Unparser(rules=(shared_rule('indent', fresh),))
     if cfg[0] == 'shared_indent_obf':
-        return Unparser(rules=(shared_rule('obf'), shared_rule('indent')))
+        return Unparser(rules=(shared_rule('obf', fresh), shared_rule('indent', fresh)))
+    if cfg[0] == 'shared_min_layout':
+        # instance-level handlers layered over a shared first rule
+        from calmjs.parse.ruletypes import Space
+        from calmjs.parse.handlers.core import layout_handler_space_imply
+        return Unparser(rules=(shared_rule('min', fresh),), layout_handlers={Space: layout_handler_space_imply})
     if cfg[0] == 'pretty':
         return pretty_printer(cfg[1])
     if cfg[0] == 'default':
@@ -168,7 +178,7 @@ class World(object):
     def expected(self, cfg, ti):
         key = (cfg, self.trees[ti][0])
         if key not in self.model:
-            self.model[key] = [tuple(f) for f in make_printer(cfg)(self.trees[ti][1])]
+            self.model[key] = [tuple(f) for f in make_printer(cfg, fresh=True)(self.trees[ti][1])]
         return self.model[key]
 
     def print_full(self, pi, ti):
